@@ -48,6 +48,7 @@ class Path:
         self.sink = FactSink()
         self.pc = []
         self.pc_raw = []      # unsimplified branch conditions (term relevance only)
+        self._facts_mark = 0
         self.solver = z3.Solver()
         self.solver.set("timeout", FEAS_TIMEOUT_MS)
         self._n_facts_added = 0
@@ -189,7 +190,12 @@ class Path:
         # instances are built by the same constructors, so equal terms stay syntactically
         # equal, which spares the solver a nonlinear normalisation it often cannot do
         neg = z3.And(zbool(hyp), z3.Not(zbool(goal)))
-        aux = self.sink.relevant_aux([neg] + [x for x in (goal, hyp) if isinstance(x, z3.ExprRef)] + [p_ for p_ in self.pc + self.pc_raw if isinstance(p_, z3.ExprRef)])
+        rel = [neg] + [x for x in (goal, hyp) if isinstance(x, z3.ExprRef)] + [p_ for p_ in self.pc + self.pc_raw if isinstance(p_, z3.ExprRef)]
+        # ground facts added since the previous obligation (lemma instances, explicitly
+        # instantiated postconditions) belong to this obligation's argument
+        rel += [f for f in self.sink.facts[self._facts_mark:] if isinstance(f, z3.ExprRef) and not z3.is_quantifier(f)]
+        self._facts_mark = len(self.sink.facts)
+        aux = self.sink.relevant_aux(rel)
         if self.degraded[0]:
             # an obligation of this function has already failed with a counter-model:
             # remaining ones get a short budget (they are reported as unknown, not proved)
